@@ -194,6 +194,9 @@ def probes():
         "sock_bool": acc(lambda: stix2.v21.SocketExt(address_family="AF_INET", options={"SO_KEEPALIVE": True})),
         # C03: a falsy named argument ("" for a string property) is dropped by the positional-argument __init__
         "positional_empty_string": acc(lambda: stix2.v21.StatementMarking(statement="")),
+        # C01: a 2.0 bundle member that parses to an object carrying spec_version
+        "bundle20_member_21_sco": acc(lambda: stix2.v20.Bundle(objects=[
+            {"type": "ipv4-addr", "id": "ipv4-addr--ff26c055-6336-5bc5-b98d-13d6226742dd", "value": "1.2.3.4"}])),
         "d2s_ext_nondict": exc_of(lambda: stix2.parse({"type": "x-unknown-type", "id": "x-unknown-type--" + u, "extensions": "abc"})),
     }
 
